@@ -227,6 +227,27 @@ def tv_events(rng, tier):
                 c = counters(ber, bler)
                 evs.append({"ev": "Forward", "tid": tid, "x": [], "y": [], "xi": [], "yi": [], "B": B, "ber5": v5(b1), "bler5": v5(b2), "ber5s": v5(b1), "bler5s": v5(b2),
                             "c_tb": c[0], "c_eb": c[1], "c_tbl": c[2], "c_ebl": c[3], "sum5": -1, "none": [-1], "form": "empty input %s" % (shp0,)})
+    # half-precision inputs with many differing bits in one call (a count kept in the inputs' dtype loses integers above 256 / 2048), and the same
+    # data split over several updates
+    from kaira.metrics.signal import BitErrorRate as _BER
+    for dt in (torch.bfloat16, torch.float16):
+        for nbits, nerr in ((3000, 3000), (4096, 2731), (1000, 301)):
+            xs = [0] * nbits
+            ys = [1 if i < nerr else 0 for i in range(nbits)]
+            rng.shuffle(ys)
+            X0, Y0 = torch.tensor(xs, dtype=dt).reshape(1, -1), torch.tensor(ys, dtype=dt).reshape(1, -1)
+            tid += 1
+            evs.append({"ev": "New", "tid": tid})
+            try:
+                m = _BER()
+                v1 = m(X0, Y0)
+                m.update(X0[:, :nbits // 2], Y0[:, :nbits // 2])
+                m.update(X0[:, nbits // 2:], Y0[:, nbits // 2:])
+                v2 = m.compute()
+            except Exception:
+                continue
+            evs.append({"ev": "Helper", "tid": tid, "x": xs, "y": ys, "xi": [], "yi": [], "B": 1, "ber5": v5(v1), "bler5": v5(v1), "form": "one-shot " + str(dt).replace("torch.", "")})
+            evs.append({"ev": "Helper", "tid": tid, "x": xs, "y": ys, "xi": [], "yi": [], "B": 1, "ber5": v5(v2), "bler5": v5(v2), "form": "two updates " + str(dt).replace("torch.", "")})
     # benchmark helpers on 1-D data whose length is a multiple of the block size
     for _ in range(60 if tier == "quick" else 400):
         B = rng.choice([1, 2, 4, 5])
